@@ -7,6 +7,7 @@ package vfe2e
 // bookkeeping has to survive the trip through the store.
 
 import (
+	"bytes"
 	"encoding/binary"
 	"fmt"
 	"os"
@@ -70,7 +71,7 @@ func c08rSerial(m *vfkit.Decoded) (uint32, bool) {
 }
 
 func TestVfC08Redis(t *testing.T) {
-	st := vfkit.Stats("TestVfC08Redis", "two pairs of proxies, each pair sharing one harness-made RESP3 store as second-level cache (one proxy without memory cache, one with; maximum_ttl unset for one pair and 2 for the other; ip marker and ECS on); runs of 40-160 names x (type, class) variants, each with a script of upstream replies (rcode, TC, TTL vectors) and 3-8 asks over 9 s, every ask drawn to one proxy of the pair and one client group; oracles: a response carrying the serial of a fetch belongs to the same name, type, class and client group as that fetch; served TTL <= max(1, T - whole seconds since t_ref); not served from a fetch once its lifetime + 2 s has passed; truncated replies never served later; all responses with one serial agree in rcode, flags and records; at the store: an error response never replaces a live positive value that has more than 1 s left; non-trivial = a run with hits served out of the shared store (counted at the store) and >= 1 aged or expired observation")
+	st := vfkit.Stats("TestVfC08Redis", "two pairs of proxies, each pair sharing one harness-made RESP3 store as second-level cache (one proxy without memory cache, one with; maximum_ttl unset for one pair and 2 for the other; ip marker and ECS on); runs of 40-160 names x (type, class) variants, each with a script of upstream replies (rcode, TC, TTL vectors) and 3-8 asks over 9 s, every ask drawn to one proxy of the pair and one client group; oracles: a response carrying the serial of a fetch belongs to the same name, type, class and client group as that fetch; served TTL <= max(1, T - whole seconds since t_ref) - for a hit at the proxy without memory cache counted up to the earliest moment the store can have answered a lookup of that name made while the query was open (in one run of three 1-4 names have lookups of 1.1-2.6 s); not served from a fetch once its lifetime + 2 s has passed; truncated replies never served later; all responses with one serial agree in rcode, flags and records; at the store: an error response never replaces a live positive value that has more than 1 s left; non-trivial = a run with hits served out of the shared store (counted at the store) and >= 1 aged or expired observation")
 	defer vfkit.Flush()
 	block := NextIPBlock()
 	var names sync.Map   // key(label,typ,cls) -> *c08rName
@@ -206,6 +207,27 @@ func TestVfC08Redis(t *testing.T) {
 		// the store answers at once, or after a latency under which the proxies' writes to it queue up
 		P.redis.Delay.Store(int64(time.Duration(rapid.SampledFrom([]int{0, 0, 1000, 3000}).Draw(t, "storeLatencyMicros")) * time.Microsecond))
 		defer P.redis.Delay.Store(0)
+		// In one run of three the store is slow for 1-4 of the names: the second and third lookup of their keys are answered
+		// after 1.1-2.6 s (a latency spike). The time a lookup takes is time the entry ages: the TTLs of a hit served out of
+		// the store count from the fetch to the moment the store's answer is there, not to the moment the question came in.
+		slow := map[string]time.Duration{}
+		if rapid.IntRange(0, 2).Draw(t, "slowLookups") == 1 {
+			for i := rapid.IntRange(1, 4).Draw(t, "slowNames"); i > 0; i-- {
+				slow[all[rapid.IntRange(0, len(all)-1).Draw(t, "slowName")].label] = time.Duration(rapid.IntRange(1100, 2600).Draw(t, "lookupMs")) * time.Millisecond
+			}
+			P.redis.SetGetDelay(func(key []byte, n int) time.Duration {
+				if n == 0 || n > 2 {
+					return 0
+				}
+				for lbl, d := range slow {
+					if bytes.Contains(key, []byte(lbl)) {
+						return d
+					}
+				}
+				return 0
+			})
+			defer P.redis.SetGetDelay(nil)
+		}
 		logFrom := len(P.redis.Log())
 		type obs struct {
 			n      *c08rName
@@ -286,7 +308,8 @@ func TestVfC08Redis(t *testing.T) {
 				first[o.serial] = o.r
 			}
 		}
-		aged, expired, negative := 0, 0, 0
+		aged, expired, negative, slowHits := 0, 0, 0, 0
+		storeLog := P.redis.Log()[logFrom:]
 		for _, o := range observations {
 			if o.r == nil {
 				t.Fatalf("name %s: no response to a query sent at +%v to proxy %d", o.n.label, o.tq.Sub(start), o.ask.proxy)
@@ -300,6 +323,25 @@ func TestVfC08Redis(t *testing.T) {
 			fv, _ := fetches.Load(o.serial)
 			f := fv.(*c08rFetch)
 			elapsed := o.tq.Sub(tref[o.serial])
+			// A hit at the proxy without memory cache comes out of the store: the proxy cannot have built it before the
+			// store answered one of the lookups of this name that arrived while the query was open - the earliest of those
+			// answers is a lower bound for the moment the response was made.
+			if o.ask.proxy == 0 && fv.(*c08rFetch).sentAt.Before(o.tq) {
+				var earliest time.Time
+				for _, op := range storeLog {
+					if op.Cmd == "GET" && !op.At.Before(o.tq) && !op.At.After(o.tr) && bytes.Contains(op.Key, []byte(o.n.label)) {
+						if earliest.IsZero() || op.ReplyNotBefore.Before(earliest) {
+							earliest = op.ReplyNotBefore
+						}
+					}
+				}
+				if !earliest.IsZero() && earliest.Sub(tref[o.serial]) > elapsed {
+					elapsed = earliest.Sub(tref[o.serial])
+					if earliest.Sub(o.tq) > time.Second {
+						slowHits++
+					}
+				}
+			}
 			whole := int64(0)
 			if elapsed > 0 {
 				whole = int64(elapsed / time.Second)
@@ -404,6 +446,7 @@ func TestVfC08Redis(t *testing.T) {
 		st.Class("queries-after-lifetime", expired)
 		st.Class("tc-or-negative-fetch", negative)
 		st.Class("store-GET-hits", storeHits)
+		st.Class("hits-behind-a-lookup-of-more-than-1s", slowHits)
 		st.Class("store-SETs", sets)
 		st.Class("store-SET-NX", nxSets)
 		st.Case(vfkit.Fingerprint(runNo, os.Getpid(), len(all)), storeHits > 0 && (aged > 0 || expired > 0), []string{fmt.Sprintf("max_ttl=%v", P.max)}, func() any {
